@@ -15,7 +15,8 @@ import oracle as O
 def gen_case(p):
     rng = random.Random(p['seed'])
     nv = p.get('nvars', 1)
-    doms = [O.make_domain(rng, p.get('n', 3), falsy=p.get('falsy', False)) for _ in range(nv)]
+    doms = [O.make_domain(rng, p.get('n', 3), falsy=p.get('falsy', False), equal_values=p.get('equal_values', False),
+                          none_names=p.get('none_names', False)) for _ in range(nv)]
     cond = O.gen_cond(rng, nv, p.get('depth', 2), falsy=p.get('falsy', False),
                       vocab=tuple(p.get('vocab', ('cmp', 'name', 'truth', 'call', 'contains'))),
                       neg=p.get('neg', True), nested_neg=p.get('nested_neg', False))
@@ -602,7 +603,9 @@ def run_select_case(p):
         if cond is not None and rng.random() < 0.5:
             cond = O.gen_cond(rng, 1, 1, vocab=('cmp', 'name'), neg=False)     # mentions only variable 0
         spec = rng.choice([[(0, None), (0, 'name'), (1, None)], [(1, None), (1, 'size'), (0, None)], [(0, 'name'), (0, 'size'), (1, None)],
-                           [(0, None), (1, None), (1, 'name')]])
+                           [(0, None), (1, None), (1, 'name')],
+                           # an attribute listed BEFORE the variable it is taken from (the result does not depend on the order)
+                           [(0, 'name'), (0, None), (1, None)], [(1, 'size'), (0, None), (1, None)], [(1, 'name'), (0, 'size'), (1, None), (0, None)]])
         got, want, q = O.run_select_exprs(doms, cond, spec)
         if got != want:
             return {'select': spec, 'condition': repr(cond), 'got_rows': len(got), 'want_rows': len(want)}
@@ -815,11 +818,13 @@ def run_predform_case(p):
     outside = [rng.choice(mk)() for _ in range(3)]
     n = rng.choice([0, 0, 3, 4, 5]) if p.get('allow_empty') else rng.choice([3, 4, 5])
     dom = [rng.choice(mk)() for _ in range(n)]
-    T = rng.choice([O.PBase, O.PSub, O.PInit])
-    if T is O.PInit:
-        mk = mk + [lambda: O.PInit(rng.choice(names), rng.choice([1, 2]))] * 3
+    T = rng.choice([O.PBase, O.PSub, O.PInit, O.PSubSub, O.PHand, O.PPost])
+    if T in (O.PInit, O.PSubSub, O.PHand, O.PPost):
+        # PSubSub / PHand: UNDECORATED subclasses of a @symbol class (the term ranges over the class that is called, not over
+        # the decorated ancestor); PPost: a field that is not a constructor parameter
+        mk = mk + [lambda: T(rng.choice(names), rng.choice([1, 2]))] * 3 + [lambda: O.PSubSub(rng.choice(names), rng.choice([1, 2]))]
         dom = [rng.choice(mk)() for _ in range(n)]
-    style = rng.choice(['kw_name', 'pos_name', 'pos_name_size', 'kw_size', 'none', 'let'])
+    style = rng.choice(['kw_name', 'pos_name', 'pos_name_size', 'kw_size', 'none', 'let'] + (['kw_noninit'] * 3 if T is O.PPost else []))
     v_name, v_size = rng.choice(names), rng.choice([1, 2])
     try:
         with symbolic_mode():
@@ -835,6 +840,14 @@ def run_predform_case(p):
             elif style == 'kw_size':
                 q = T(From(dom), size=v_size)
                 fields = {'size': v_size}
+            elif style == 'kw_noninit':
+                v_area = rng.choice([2, 4])
+                if rng.random() < 0.5:
+                    q = T(From(dom), area=v_area)
+                    fields = {'area': v_area}
+                else:
+                    q = T(From(dom), v_name, area=v_area)
+                    fields = {'name': v_name, 'area': v_area}
             elif style == 'none':
                 q = an(entity(T(From(dom))))
                 fields = {}
@@ -1020,9 +1033,14 @@ def run_lazy_case(p):
     O.reset_registry()
     (O.enable_caching if p.get('caching', True) else O.disable_caching)()
     rng = random.Random(p['seed'])
-    dom = O.make_domain(rng, 5)
+    dom = O.make_domain(rng, p.get('n', 5))
     cond = O.gen_cond(rng, 1, p.get('depth', 2), vocab=tuple(p.get('vocab', ('cmp', 'name', 'truth', 'member', 'contains', 'call'))),
                       neg=True, nested_neg=True)
+    spelling = rng.choice(['entity', 'an_var', 'set_of']) if p.get('no_condition') else 'cond'
+    if p.get('no_condition'):
+        # the selected variable is not bound by any condition (the "Cartesian product" diagnostics look at it): every
+        # element qualifies, the k-th result needs exactly k pulls, also for domains of more than 20 elements
+        cond = ('cmp', 'ge', ('attr', 0, 'size'), ('lit', -1))
     pulled = []
 
     def source():
@@ -1032,14 +1050,23 @@ def run_lazy_case(p):
     try:
         with symbolic_mode():
             x = let(type_=O.Item, domain=source())
-            q = an(entity(x, O.build(cond, [x])))
+            if spelling == 'cond':
+                q = an(entity(x, O.build(cond, [x])))
+            elif spelling == 'entity':
+                q = an(entity(x))
+            elif spelling == 'an_var':
+                q = an(x)
+            else:
+                from entity_query_language import set_of
+                q = an(set_of([x]))
+        unwrap = (lambda r: r[x]) if spelling == 'set_of' else (lambda r: r)
         it = q.evaluate()
         if pulled:
             return {'what': 'evaluate() pulled from the domain before the first result was requested', 'pulled': list(pulled)}
         qualifying = [i for i, o in enumerate(dom) if O.holds(cond, {0: o})]
         k_stop = rng.randrange(0, len(qualifying) + 1)
         for k in range(k_stop):
-            r = next(it)
+            r = unwrap(next(it))
             if r is not dom[qualifying[k]]:
                 return {'what': 'wrong k-th result', 'k': k, 'condition': repr(cond)}
             if pulled != list(range(qualifying[k] + 1)):
@@ -1048,7 +1075,7 @@ def run_lazy_case(p):
                         'condition': repr(cond), 'domain': repr(dom)}
         it.close()
         for _ in range(rng.randrange(1, 3)):
-            got = list(q.evaluate())
+            got = [unwrap(r) for r in q.evaluate()]
             want = [dom[i] for i in qualifying]
             if not O.same_list_by_identity(got, want):
                 return {'what': 'later full evaluation differs', 'got': repr(got), 'want': repr(want), 'condition': repr(cond),
@@ -1099,6 +1126,39 @@ def run_forall_case(p):
         if got != want:
             return {'shape': 'two_free', 'condition': repr(c2), 'universal_domain': repr(du), 'domain': repr(dx), 'got': got, 'want': want,
                     'signature_kind': 'two_free'}
+        return None
+    if p.get('combined'):
+        # (a) two for_all over the SAME universal variable in one conjunction; (b) a for_all followed by a condition in which
+        # the same variable is an ordinary (existential) variable; (c) the universal is an EXPRESSION (an attribute of a
+        # variable) whose values include falsy ones
+        kind = rng.choice(['two_foralls', 'then_existential', 'expression', 'expression'])
+        du = O.make_domain(rng, rng.choice([1, 2, 3]), falsy=(kind == 'expression'))
+        c1 = ('cmp', rng.choice(['le', 'ge', 'ne', 'lt', 'gt']), ('attr', 0, 'size'), ('attr', 1, 'size'))
+        c2 = ('cmp', rng.choice(['le', 'ge', 'ne', 'lt', 'gt']), ('index', 0, 'k'), ('attr', 1, 'size'))
+        try:
+            with symbolic_mode():
+                x = let(type_=O.Item, domain=dx)
+                u = let(type_=O.Item, domain=du)
+                if kind == 'two_foralls':
+                    conds = [for_all(u, O.build(c1, [x, u])), for_all(u, O.build(c2, [x, u]))]
+                    ref = lambda a: all(O.holds(c1, {0: a, 1: b}) for b in du) and all(O.holds(c2, {0: a, 1: b}) for b in du)  # noqa
+                elif kind == 'then_existential':
+                    conds = [for_all(u, O.build(c1, [x, u])), O.build(c2, [x, u])]
+                    ref = lambda a: all(O.holds(c1, {0: a, 1: b}) for b in du) and any(O.holds(c2, {0: a, 1: b}) for b in du)  # noqa
+                else:
+                    op = c1[1]
+                    conds = [for_all(u.size, O.OPS[op](x.size, u.size))] + ([O.build(extra, [x])] if extra is not None else [])
+                    ref = lambda a: all(O.OPS[op](a.size, b.size) for b in du) and (extra is None or O.holds(extra, {0: a}))  # noqa
+                q = an(entity(x, and_(*conds))) if (len(conds) > 1 and rng.random() < 0.5) else an(entity(x, *conds))
+            outs = [sorted(set(dx.index(r) for r in q.evaluate())) for _ in range(2)]
+            want = [i for i, a in enumerate(dx) if ref(a)]
+        except Exception as e:  # noqa
+            return {'shape': kind, 'exception': repr(e), 'trace': traceback.format_exc(limit=4), 'signature_kind': kind + ':exception'}
+        finally:
+            O.enable_caching()
+        if outs != [want, want]:
+            return {'shape': kind, 'c1': repr(c1), 'c2': repr(c2), 'extra': repr(extra), 'universal_domain': repr(du), 'domain': repr(dx),
+                    'got': outs, 'want': want, 'signature_kind': kind}
         return None
     try:
         with symbolic_mode():
@@ -1296,8 +1356,8 @@ def run_registry_case(p):
     from entity_query_language.symbolic import Variable
     O.reset_registry()
     rng = random.Random(p['seed'])
-    classes = [O.PBase, O.PSub, O.PSubSub, O.PHand, O.POther]
-    live = {K: [] for K in classes + [O.Built]}
+    classes = [O.PBase, O.PSub, O.PSubSub, O.PHand, O.POther, O.PDef, O.PDefSub]
+    live = {K: [] for K in classes + [O.Built, O.PDefHand]}
     log = []
     pending = []      # queries declared but not evaluated yet
 
@@ -1311,7 +1371,7 @@ def run_registry_case(p):
                     'want': [(type(o).__name__, getattr(o, 'name', '')) for o in want],
                     'signature_kind': 'multiplicity' if set(map(id, got)) == set(map(id, want)) else 'membership'}
         return None
-    ops = ['new_pos', 'new_kw', 'new_default', 'symbolic', 'query', 'query', 'declare', 'eval_declared', 'infer']
+    ops = ['new_pos', 'new_kw', 'new_default', 'new_noargs', 'symbolic', 'query', 'query', 'declare', 'eval_declared', 'infer']
     if p.get('clear', True):
         ops.append('clear')
     try:
@@ -1325,6 +1385,11 @@ def run_registry_case(p):
                 live[K].append(K(name='k%d' % step, size=step))
             elif op == 'new_default':
                 live[K].append(K('d%d' % step))
+            elif op == 'new_noargs':
+                # constructed from defaults alone (no positional, no keyword argument): registered like any other
+                K0 = rng.choice([O.PDef, O.PDefSub, O.PDefHand])
+                log[-1] = (op, K0.__name__)
+                live[K0].append(K0())
             elif op == 'symbolic':
                 with (symbolic_mode() if rng.random() < 0.5 else rule_mode()):
                     v = K(name='sym') if K is not O.PHand else K('sym')
@@ -1352,7 +1417,7 @@ def run_registry_case(p):
                     return {'history': list(log), 'what': 'inference built %d instances for %d bindings' % (len(built), len(src)),
                             'signature_kind': 'infer'}
             elif op == 'declare':
-                T = rng.choice([O.PBase, O.PSub, O.PSubSub, O.Built])
+                T = rng.choice([O.PBase, O.PSub, O.PSubSub, O.Built, O.PDef, O.PDefSub])
                 with symbolic_mode():
                     x = let(type_=T)
                     pending.append((T, an(entity(x))))
@@ -1364,7 +1429,7 @@ def run_registry_case(p):
                 if d:
                     return d
             else:
-                T = rng.choice([O.PBase, O.PSub, O.PSubSub, O.Built])
+                T = rng.choice([O.PBase, O.PSub, O.PSubSub, O.Built, O.PDef, O.PDefSub, O.PDefHand])
                 with symbolic_mode():
                     x = let(type_=T)
                     q = an(entity(x))
